@@ -37,15 +37,15 @@ TECH = {
             "DESIGN.md 5/C14", "bitwise relocatable element types; uninitialised int slots are never compared"),
     "C15": ("generated free-running stress programs with ThreadSanitizer as the oracle",
             "DESIGN.md 5/C15", "TSan is happens-before based and only sees pairs of accesses that execute in a run; free-running scheduler"),
-    "C16": ("stateful property-based testing against a reference model (value, equality) of notifications",
+    "C16": ("stateful property-based testing against a reference model (value, equality) of notifications, incl. re-entrant (write-back) subscribers",
             "DESIGN.md 5/C16", "model computes with the same C++ arithmetic; bounded values (no signed overflow, no division by zero)"),
     "C17": ("generated contents/chunkings/operation sequences; round-trip + byte/position model + std::filesystem differential",
             "DESIGN.md 5/C17", "POSIX only; std::filesystem and std::ifstream trusted"),
     "C18": ("generated directory trees and path strings; std::filesystem differential + string laws; ASan",
             "DESIGN.md 5/C18", "POSIX only; no symlinks/special files as quantified"),
-    "C19": ("structured string generation (table entries, near misses, structure breakers, long parts) + libFuzzer; independent table lookup oracle, ASan, poison-filled result",
+    "C19": ("structured string generation (table entries, near misses, structure breakers, long parts), 5-call histories per case (metamorphic: the answer does not depend on earlier calls) + libFuzzer; independent table lookup oracle, ASan, poison-filled result",
             "DESIGN.md 5/C19", "tables are the public LocaleInfo::languageInfo/countryInfo arrays"),
-    "C20": ("generated callable kinds + schedules under the controlled scheduler; liveness canary + ASan stack-use-after-return + event order oracle",
+    "C20": ("generated callable kinds + schedules + injected thread-creation faults (EAGAIN) under the controlled scheduler; liveness / moved-from canary + ASan stack-use-after-return + event order oracle",
             "DESIGN.md 5/C20", "as C01; argument lvalues outlive the thread"),
 }
 
